@@ -699,6 +699,181 @@ def run(c):
     c.cov["integrator_runs"] = ran
     dims["callbacks actually called"] = cb_calls[0]
 
+    # ======================================================================= search: pairwise conjunctions (greedy all-pairs covering array)
+    from c02_pairs import covering_array, triples_array, PairLog
+    PF = {
+        "integ": ["whfast-jacobi", "whfast-dh", "whfast-whds", "whfast-bary", "saba", "eos", "leapfrog", "janus", "mercurius", "trace", "ias15", "bs"],
+        "opt": ["default", "alt"],
+        "safe": [1, 0],
+        "keep": [0, 1],
+        "fam": [0, 1, 2, 3],
+        "dtsign": ["+", "-"],
+        "calls": ["steps", "split-integrate", "exact-outputs", "integrate-inexact"],
+        "evA": ["none", "synchronize", "copy", "file", "pickle", "reverse", "dt-change"],
+        "evB": ["none", "synchronize", "copy", "file", "pickle", "reverse", "dt-change"],
+        "roles": ["all-massive", "massless-tp"],
+        "var": ["none", "first"],
+        "cb": ["none", "readonly"],
+    }
+    HAS_SAFE = ("whfast-jacobi", "whfast-dh", "whfast-whds", "whfast-bary", "saba", "eos", "mercurius")
+
+    def pf_ok(f):
+        it = f["integ"]
+        if f["safe"] == 0 and it not in HAS_SAFE:
+            return False                                   # no safe_mode option
+        if f["keep"] == 1 and (f["safe"] == 1 or not (it.startswith("whfast") or it == "saba")):
+            return False                                   # "keep_unsynchronized == 1 is not compatible with safe_mode"; option exists for WHFast/SABA only
+        if f["fam"] == 3 and it not in ("mercurius", "trace", "ias15", "bs"):
+            return False                                   # close planet pair: outside the stable regime of the fixed-step schemes
+        if it == "trace" and (f["dtsign"] == "-" or "reverse" in (f["evA"], f["evB"])):
+            return False                                   # F10 (TRACE backwards) belongs to C01/C08
+        if f["keep"] == 1 and ("reverse" in (f["evA"], f["evB"]) or "dt-change" in (f["evA"], f["evB"])):
+            return False                                   # editing dt by hand while deliberately unsynchronised is outside the documented use
+        if f["keep"] == 1 and f["cb"] == "readonly":
+            return False                                   # a post_timestep_modifications callback makes every step synchronise and sets recalculate_coordinates: contradicts keep_unsynchronized
+        if f["var"] == "first" and not (it in ("ias15", "leapfrog") or (it == "whfast-jacobi" and f["opt"] == "default")):
+            return False                                   # variational equations: IAS15, LEAPFROG, WHFast/Jacobi/default kernel only
+        if f["var"] == "first" and ("pickle" in (f["evA"], f["evB"]) and False):
+            return False
+        if it == "janus" and ("pickle" in (f["evA"], f["evB"]) or "dt-change" in (f["evA"], f["evB"]) or f["calls"] == "exact-outputs"):
+            return False                                   # JANUS: integer state is tied to one dt (changing dt re-maps the grid; reversibility class, C10)
+        if it in ("ias15", "bs") and f["calls"] == "split-integrate" and False:
+            return False
+        return True
+
+    def pf_cfg(f, rng):
+        it, alt = f["integ"], f["opt"] == "alt"
+        if it.startswith("whfast"):
+            co = {"whfast-jacobi": "jacobi", "whfast-dh": "democraticheliocentric", "whfast-whds": "whds", "whfast-bary": "barycentric"}[it]
+            cf = dict(integrator="whfast", coordinates=co, kernel=("lazy" if (alt and co == "jacobi" and f["var"] == "none") else "default"),
+                      corrector=(11 if (alt and co in ("jacobi", "barycentric")) else 0), corrector2=0, safe_mode=f["safe"])
+        elif it == "saba":
+            cf = dict(integrator="saba", type=("cm2" if alt else "10,6,4"), safe_mode=f["safe"])
+        elif it == "eos":
+            cf = dict(integrator="eos", phi0=("pmlf6" if alt else "lf4"), phi1="lf", n=2, safe_mode=f["safe"])
+        elif it == "janus":
+            cf = dict(integrator="janus", order=(4 if alt else 6))
+        elif it == "mercurius":
+            cf = dict(integrator="mercurius", L=("C4" if alt else "mercury"), safe_mode=f["safe"])
+        elif it == "trace":
+            cf = dict(integrator="trace", peri_mode=(2 if alt else 1))
+        elif it == "ias15":
+            cf = dict(integrator="ias15", adaptive_mode=1) if alt else dict(integrator="ias15")
+        elif it == "bs":
+            cf = dict(integrator="bs", eps_abs=1e-10, eps_rel=1e-10) if alt else dict(integrator="bs")
+        else:
+            cf = dict(integrator="leapfrog")
+        if f["keep"]:
+            cf["keep_unsynchronized"] = 1
+        return cf
+
+    arrp, pvalid, pexcl = covering_array(PF, pf_ok, SplitMix(8101))
+    if c.thorough:
+        arrp = arrp + triples_array(PF, pf_ok, SplitMix(8102), ("integ", "safe", "calls"), arrp) + triples_array(PF, pf_ok, SplitMix(8103), ("calls", "evA", "evB"), arrp)
+        todo_cases = arrp
+    else:
+        todo_cases = [cs for i_, cs in enumerate(arrp) if i_ % 4 == c.seed % 4]        # every pair within four consecutive seeds
+    plog = PairLog(PF, pvalid, pexcl)
+    pstep = 200 if c.thorough else 70
+    for pi, f in enumerate(todo_cases):
+        rng = c.rng.fork()
+        cf = pf_cfg(f, rng)
+        m0, bodies, G = gen_system(rng, f["fam"])
+        boost = [rng.normal() for _ in range(3)] + [0.3 * rng.normal() for _ in range(3)]
+        Pin = 2 * math.pi * math.sqrt(bodies[0][1] ** 3 / (G * m0))
+        dtq = Pin / (rng.uniform(28, 40) if cf["integrator"] != "janus" else rng.uniform(100, 150))
+        try:
+            sim = build_sim(rebound, m0, bodies, G, boost, cf, dtq)
+            if f["dtsign"] == "-":
+                sim.dt = -sim.dt
+            if f["roles"] == "massless-tp":
+                nm_ = sim.N
+                sim.add(m=0.0, a=bodies[-1][1] * 1.7, e=0.02, primary=sim.particles[0])
+                sim.add(m=0.0, a=bodies[0][1] * 0.55, e=0.01, f=1.0, primary=sim.particles[0])
+                sim.N_active = nm_
+            if f["cb"] == "readonly":
+                def _ro2(simp, _c=cb_calls):
+                    _c[0] += 1
+                    _ = simp.contents.particles[0].x
+                sim.post_timestep_modifications = _ro2
+                sim.heartbeat = _ro2
+                sim.additional_forces = _ro2
+            if f["var"] == "first":
+                sim.add_variation()
+                for i_ in range(sim.N - sim.N_var, sim.N):
+                    pv = sim.particles[i_]
+                    pv.x, pv.y, pv.z = 1e-3 * rng.normal(), 1e-3 * rng.normal(), 1e-3 * rng.normal()
+                    pv.vx, pv.vy, pv.vz = 1e-3 * rng.normal(), 1e-3 * rng.normal(), 1e-3 * rng.normal()
+            i0 = invariants(raw(sim), G)
+            t0 = sim.t
+            wE = wP = wL = wR = 0.0
+            for ch, ev in enumerate((f["evA"], f["evB"], "none")):
+                k = pstep + rng.randint(0, 3)
+                if f["calls"] == "steps":
+                    sim.steps(k)
+                elif f["calls"] == "split-integrate":
+                    sim.integrate(sim.t + (k // 2) * sim.dt * (1 + 1e-9), exact_finish_time=0)
+                    sim.integrate(sim.t + (k - k // 2) * sim.dt * (1 + 1e-9), exact_finish_time=0)
+                elif f["calls"] == "integrate-inexact":
+                    sim.integrate(sim.t + k * sim.dt * (1 + 1e-9), exact_finish_time=0)
+                else:
+                    dt_now = sim.dt if cf["integrator"] not in ("ias15", "bs") else (dtq if f["dtsign"] == "+" else -dtq)
+                    for _o in range(6):
+                        sim.integrate(sim.t + (k / 6.0 + 0.37) * dt_now)       # exact_finish_time=1: last step shortened, dt restored
+                sim.synchronize()
+                iv = invariants(raw(sim), G)
+                tt = sim.t - t0
+                wP = max(wP, norm([a - b for a, b in zip(iv["P"], i0["P"])]) / i0["Pscale"])
+                wL = max(wL, norm([a - b for a, b in zip(iv["L"], i0["L"])]) / i0["Lscale"])
+                Rs = math.fsum(abs(p[0]) * norm(p[1:4]) for p in raw(sim)) + i0["Pscale"] * abs(tt)
+                wR = max(wR, norm([a - b - pp * tt for a, b, pp in zip(iv["R"], i0["R"], i0["P"])]) / Rs)
+                wE = max(wE, abs(iv["E"] - i0["E"]) / i0["Escale"])
+                # ---- event between this chunk and the next (event adjacency: evA then evB)
+                if ev == "synchronize":
+                    sim.synchronize(); sim.synchronize()
+                elif ev == "copy":
+                    sim = sim.copy()
+                elif ev == "pickle":
+                    sim = pickle.loads(pickle.dumps(sim))
+                elif ev == "file":
+                    fn_ = os.path.join(tempfile.gettempdir(), "c04p_%d.bin" % os.getpid())
+                    sim.save_to_file(fn_, delete_file=True)
+                    sim = rebound.Simulation(fn_)
+                    os.remove(fn_)
+                elif ev == "reverse":
+                    sim.dt = -sim.dt
+                elif ev == "dt-change":
+                    sim.dt = 0.7 * sim.dt
+                if ev in ("copy", "pickle", "file") and f["cb"] == "readonly":
+                    sim.post_timestep_modifications = _ro2; sim.heartbeat = _ro2; sim.additional_forces = _ro2
+        except Exception as ex:
+            viol.append(("pairwise:crash:" + cfg_key(cf), "pairwise case %r raised %r" % (f, ex), dict(factors=f, cfg=cf)))
+            continue
+        plog.add(f)
+        c.count(("pairwise", pi, 0 if c.thorough else c.seed))
+        hist["pairwise"] = hist.get("pairwise", 0) + 1
+        bP, bL, bR, bE = thresholds(cf)
+        if cf["integrator"] == "bs" and f["fam"] == 3:
+            bE = 1e-5
+        for nm_, v_ in (("dE", wE), ("dP", wP), ("dL", wL), ("dCOM", wR)):
+            worst["pairwise:%s:%s" % (f["integ"], nm_)] = max(worst.get("pairwise:%s:%s" % (f["integ"], nm_), 0.0), v_)
+        rep = dict(factors=f, cfg=cf, m0=m0, bodies=bodies, G=G, boost=boost, dt=dtq, dE=wE, dP=wP, dL=wL, dCOM=wR)
+        tagp = "%s [%s]" % (cfg_key(cf), ", ".join("%s=%s" % (k_, f[k_]) for k_ in ("fam", "dtsign", "calls", "evA", "evB", "roles", "var", "cb")))
+        if wP > bP:
+            viol.append(("pairwise:P:" + f["integ"], "momentum not conserved (%.3g) by %s" % (wP, tagp), rep))
+        if wR > bR:
+            viol.append(("pairwise:COM:" + f["integ"], "centre of mass leaves uniform motion (%.3g) under %s" % (wR, tagp), rep))
+        if wL > bL:
+            viol.append((("F13:whfast-barycentric-L" if (f["integ"] == "whfast-bary" and wL <= 1e-6) else "pairwise:L:" + f["integ"]), "angular momentum not conserved (%.3g) by %s" % (wL, tagp), rep))
+        if wE > bE:
+            viol.append(("pairwise:E:" + f["integ"], "relative energy error %.3g outside the class (%.1g) of %s" % (wE, bE, tagp), rep))
+    prep = plog.report()
+    prep["factors"] = {k_: len(v_) for k_, v_ in PF.items()}
+    prep["array_size"] = len(arrp)
+    c.cov["pairs"] = prep
+    if c.thorough and prep["covered"] < prep["total"]:
+        c.broken.append("coverage: %d of %d admissible factor pairs were not evaluated in the thorough tier, e.g. %s" % (prep["total"] - prep["covered"], prep["total"], prep["missing"][:3]))
+
     # ======================================================================= search: integrator switches on ONE simulation
     # every ordered pair of integrators, a few steps each, with and without reset_integrator(); invariants measured from the
     # moment of the switch (state left behind by the first integrator, e.g. gravity_ignore_terms, must not leak into the second)
